@@ -221,3 +221,27 @@ def search(seed, broken, budget):
         r = gen_recipe(rng, "quick")
         cases.append({"id": f"s{i}", "recipe": r, "align": rng.choice([8192, 512, 65536]), "queries": gen_queries(rng, r, 12)})
     return cases
+
+
+# ---- adapters used by C08 / C13
+def open_impl(case, built):
+    from dissect.hypervisor.disk.hdd import HDS
+    stream = None
+    for k in range(len(built.files)):
+        stream = HDS(built.files[f"l{k}"].open(), parent=stream)
+    return stream
+
+
+def stream_prefix(case, built):
+    ids = [f"l{k}" for k in range(len(built.files))]
+    return f"hds.stream {case['align']} {len(ids)} " + " ".join(ids)
+
+
+def open_line(case, built):
+    ids = [f"l{k}" for k in range(len(built.files))]
+    return f"hds.open {case['align']} " + " ".join(ids)
+
+
+def truth_reader(case):
+    t = Truth(case["recipe"])
+    return t.size, t.read, 512
